@@ -73,6 +73,9 @@ type Chan struct {
 	buf    []value
 	cap    int
 	closed bool
+
+	sent, recvd int // unbuffered rendezvous bookkeeping
+	recvWaiting int // goroutines blocked receiving (makes a select send case on an unbuffered channel ready)
 }
 
 type iter interface {
